@@ -1,0 +1,29 @@
+//! C24: runs the real save-dir argument rendering (`SaveDirState::write_args`) and the real
+//! response-file tokenizer on given inputs. Adds no behaviour.
+
+use std::path::Path;
+
+pub struct Rendered {
+    /// Shell code emitted before the `exec` line (response file setup).
+    pub setup: Vec<u8>,
+    /// The text that follows `exec "$@"` in `run-with` (or the at-file content in rsp mode).
+    pub args: Vec<u8>,
+    pub original_output_file: Option<String>,
+}
+
+/// `write_args` against the real file system: `dir` is the save directory (copies are looked up
+/// there), relative paths are resolved against the process's current directory.
+pub fn render_args(dir: &Path, args: &[String], is_rsp_file: bool) -> Result<Rendered, String> {
+    crate::save_dir::verif_render_args(dir, args, is_rsp_file)
+        .map(|(setup, args, original_output_file)| Rendered {
+            setup,
+            args,
+            original_output_file,
+        })
+        .map_err(|e| e.to_string())
+}
+
+/// `read_args_from_file` (response file tokenizer).
+pub fn read_args_from_file(path: &Path) -> Result<Vec<String>, String> {
+    crate::args::read_args_from_file(path).map_err(|e| e.to_string())
+}
